@@ -142,3 +142,165 @@ def replay_cold(r):
                 if a != b:
                     return False, "cold-start concurrency: %r gives %r, sequentially %r" % (op, b, a)
     return True, "cold-start concurrent results equal the sequential ones"
+
+
+def flag_variants(ctx, ops, label, flags=(("-O",), ("-OO",)), env_variants=({"PYTHONOPTIMIZE": "1"},)):
+    """the same operations in fresh processes started with interpreter options that must not change results (-O / -OO strip
+    assert statements and docstrings; PYTHONOPTIMIZE is the environment form): every result equals the plain run's"""
+    ref = probes.run_probe(sys.executable, ops)
+    if "results" not in ref:
+        return True
+    runs = [(list(f), None) for f in flags] + [([], dict(e)) for e in env_variants]
+    for fl, env in runs:
+        got = probes.run_probe(sys.executable, ops, env_extra=env, pyflags=fl)
+        name = " ".join(fl) or ",".join("%s=%s" % kv for kv in (env or {}).items())
+        ctx.count(len(ops))
+        if "results" not in got:
+            ctx.violation("%s:fails-under-interpreter-option" % label, "the package fails in an interpreter started with %s" % name, None, "results", str(got)[:300],
+                          replay={"kind": "flags", "ops": ops[:30], "flags": fl, "env": env})
+            return False
+        for op, a, b in zip(ops, ref["results"], got["results"]):
+            if a != b:
+                ctx.violation("%s:result-differs-under-interpreter-option" % label, "a result differs in an interpreter started with %s" % name,
+                              op, str(a)[:250], str(b)[:250], replay={"kind": "flags", "ops": [op], "flags": fl, "env": env})
+                return False
+    return True
+
+
+def replay_flags(r):
+    ref = probes.run_probe(sys.executable, r["ops"])
+    got = probes.run_probe(sys.executable, r["ops"], env_extra=r.get("env"), pyflags=r.get("flags") or [])
+    ok = "results" in got and got.get("results") == ref.get("results")
+    return ok, "interpreter option %s %s: %s" % (r.get("flags"), r.get("env"), "same results as the plain interpreter" if ok else
+                                                 "results differ: plain %s, with the option %s" % (str(ref.get("results", ref))[:300], str(got.get("results", got))[:300]))
+
+
+def pickle_across(ctx, items, label, seeds=("101", "202")):
+    """objects built, used and pickled in one process, un-pickled in ANOTHER process with a different hash seed (multiprocessing
+    spawn, job queues, on-disk caches): the loaded object must be indistinguishable from a locally built one (==, hash, set and
+    dict membership, RH round trip, every observable)"""
+    items = [(v, s) for v, s in items if core.sendable(s)]
+    d = probes.run_probe(sys.executable, [["PD", v, s] for v, s in items], {"PYTHONHASHSEED": seeds[0]})
+    if "results" not in d:
+        return True
+    ops = [["PL", v, s, r[1]] for (v, s), r in zip(items, d["results"]) if r and r[0] == "ok"]
+    for seed in seeds[::-1]:       # other seed first, then the same seed (control)
+        got = probes.run_probe(sys.executable, ops, {"PYTHONHASHSEED": seed})
+        ctx.count(len(ops))
+        if "results" not in got:
+            ctx.violation("%s:unpickling-fails" % label, "objects pickled in one process cannot be loaded in another", None, "results", str(got)[:300],
+                          replay={"kind": "pickle", "items": items[:20], "seeds": list(seeds)})
+            return False
+        for op, r in zip(ops, got["results"]):
+            bad = None
+            if not r or r[0] != "ok":
+                bad = str(r)[:200]
+            else:
+                flat = {k: v for k, v in r[1].items() if v is not True and not (isinstance(v, list) and all(x is True for x in v))}
+                if flat:
+                    bad = str(flat)
+            if bad:
+                ctx.violation("%s:unpickled-object-differs-from-a-locally-built-one" % label,
+                              "an object pickled in one process and loaded in another (hash seeds %s -> %s) is not the same value" % (seeds[0], seed),
+                              op[:3], "equal in every respect", bad, replay={"kind": "pickle", "items": [[op[1], op[2]]], "seeds": [seeds[0], seed]})
+                return False
+    return True
+
+
+def replay_pickle(r):
+    class C:
+        v = []
+
+        def violation(self, sig, what, *a, **k):
+            self.v.append(sig + ": " + what + " " + str(a[1:3]))
+
+        def count(self, *a):
+            pass
+    c = C()
+    pickle_across(c, [tuple(x) for x in r["items"]], "replay", tuple(r["seeds"]))
+    return not c.v, "; ".join(c.v) or "unpickled objects are the same values"
+
+
+def run_cli(argv, stdin_text, env_extra=None, use_pty=False, timeout=60):
+    """the real command `python -m cvss.cvss_calculator` in a subprocess; with use_pty its stdout (and stderr) is a terminal.
+    returns (exit status, stdout text with CRLF normalised, stderr text)"""
+    import os
+    import subprocess
+    env = dict(os.environ)
+    env["PYTHONPATH"] = core.REPO
+    env["PYTHONDONTWRITEBYTECODE"] = "1"
+    env["PYTHONIOENCODING"] = "utf-8"
+    for k in ("COLUMNS", "LINES", "NO_COLOR", "FORCE_COLOR", "TERM", "PYTHONOPTIMIZE"):
+        env.pop(k, None)
+    env.update(env_extra or {})
+    cmd = [sys.executable, "-m", "cvss.cvss_calculator"] + list(argv)
+    if not use_pty:
+        p = subprocess.run(cmd, input=stdin_text.encode("utf-8"), stdout=subprocess.PIPE, stderr=subprocess.PIPE, env=env, timeout=timeout, cwd="/tmp")
+        return p.returncode, p.stdout.decode("utf-8", "replace"), p.stderr.decode("utf-8", "replace")
+    import pty
+    import select
+    m, sl = pty.openpty()
+    p = subprocess.Popen(cmd, stdin=subprocess.PIPE, stdout=sl, stderr=sl, env=env, cwd="/tmp", close_fds=True)
+    os.close(sl)
+    try:
+        p.stdin.write(stdin_text.encode("utf-8"))
+        p.stdin.close()
+    except Exception:  # noqa
+        pass
+    chunks = []
+    import time
+    t0 = time.time()
+    while time.time() - t0 < timeout:
+        r, _, _ = select.select([m], [], [], 0.2)
+        if r:
+            try:
+                b = os.read(m, 65536)
+            except OSError:
+                break
+            if not b:
+                break
+            chunks.append(b)
+        elif p.poll() is not None:
+            break
+    try:
+        p.wait(timeout=5)
+    except Exception:  # noqa
+        p.kill()
+    os.close(m)
+    return p.returncode, b"".join(chunks).decode("utf-8", "replace").replace("\r\n", "\n"), ""
+
+
+ENVS = [{"COLUMNS": "20"}, {"COLUMNS": "1", "LINES": "1"}, {"COLUMNS": "0"}, {"COLUMNS": "-3"}, {"COLUMNS": "abc"}, {"COLUMNS": "100000"},
+        {"TERM": "dumb"}, {"TERM": "xterm-256color", "COLUMNS": "40"}, {"NO_COLOR": "1"}, {"FORCE_COLOR": "1"}, {"LANG": "C", "LC_ALL": "C"},
+        {"LC_ALL": "tr_TR.UTF-8", "LANG": "tr_TR.UTF-8"}, {"PYTHONOPTIMIZE": "1"}, {"PYTHONOPTIMIZE": "2"}, {"TZ": "Pacific/Kiritimati"},
+        {"HOME": "/nonexistent"}, {"PYTHONWARNINGS": "default"}]
+
+
+def cli_environments(ctx, cases, label):
+    """cases: (argv, stdin lines).  The real command under environment variables a terminal session may have (terminal
+    width / height, TERM, colour conventions, locale, optimisation) and with stdout on a pseudo-terminal: exit status 0 and
+    exactly the output of the plain piped run."""
+    for i, (argv, lines) in enumerate(cases):
+        text = "".join(x + "\n" for x in lines)
+        rc0, out0, err0 = run_cli(argv, text)
+        ctx.count()
+        variants = [(ENVS[(i * 3 + j) % len(ENVS)], False) for j in range(3)] + [(None, True), (ENVS[(i * 5 + 1) % len(ENVS)], True)]
+        for env, tty in variants:
+            rc, out, err = run_cli(argv, text, env, tty)
+            ctx.count()
+            if rc != rc0 or out != out0 or (not tty and err != err0):
+                ctx.violation("%s:cli-depends-on-terminal-or-environment" % label,
+                              "the calculator's exit status / output differs %s%s" % ("with stdout on a terminal " if tty else "", ("under %s" % env) if env else ""),
+                              {"argv": argv, "stdin": lines}, [rc0, out0[-300:]], [rc, out[-300:], err[-300:]],
+                              replay={"kind": "env", "argv": argv, "stdin": lines, "env": env, "tty": tty})
+                return False
+    return True
+
+
+def replay_env(r):
+    text = "".join(x + "\n" for x in r["stdin"])
+    rc0, out0, err0 = run_cli(r["argv"], text)
+    rc, out, err = run_cli(r["argv"], text, r.get("env"), r.get("tty"))
+    ok = rc == rc0 and out == out0
+    return ok, "cvss_calculator %r under env %r, tty=%r: exit %r (plain run %r), output %s" % (
+        r["argv"], r.get("env"), r.get("tty"), rc, rc0, "identical to the plain run" if out == out0 else "DIFFERS: %r vs plain %r" % (out[-300:], out0[-300:]))
